@@ -471,16 +471,20 @@ terrorAssignOrSetBang (Stab stab, AbSyn absyn, TForm type)
 		
 		if (tfIsCross(trhs) && tfCrossArgc(trhs) == lhsc) {
 			trhsv = tfArgv(trhs);
-			rhsv = abArgv(rhs);
 		}
 		else if (tfIsMulti(trhs) && tfMultiArgc(trhs) == lhsc) {
 			trhsv = tfArgv(trhs);
-			rhsv = abArgv(rhs);
 		}
 		else {
 			comsgError(rhs, ALDOR_E_TinCantSplitRHS);
 			return false;
 		} 
+		/* The right hand side has parts only if it is written as a
+		 * tuple; a call returning several values is one node.
+		 */
+		if (abTag(rhs) == AB_Comma && abArgc(rhs) == lhsc)
+			rhsv = abArgv(rhs);
+
 		if (terrorIllegalDepAssign(lhsc, lhsv, trhsv))
 			return false;
 		
@@ -499,7 +503,7 @@ terrorAssignOrSetBang (Stab stab, AbSyn absyn, TForm type)
 				abFreeNode(ab);
 			}	
 			if (abState(lhsv[i]) == AB_State_Error ||
-			    abState(rhsv[i]) == AB_State_Error) {
+			    (rhsv && abState(rhsv[i]) == AB_State_Error)) {
 				AbSyn	fake  = abNewNothing(abPos(lhs));
 				AbSyn	ab = abNewAssign(abPos(lhs), lhsv[i],
 							 fake);
